@@ -10,7 +10,7 @@ use mahf::state::registry::Entry;
 use mahf::{Individual, SingleObjective, State, StateError, StateRegistry};
 
 /// Model tag of the best-individual memory (value: objective bits, `NONE` if empty).
-pub const TAG_BEST: u8 = 7;
+pub const TAG_BEST: u8 = 13;
 /// Model tag of `Progress<ValueOf<T>>` for tracked type tag `t` (probe types and `TAG_IT`).
 pub const fn tag_progress(t: u8) -> u8 {
     16 + t
@@ -114,17 +114,26 @@ pub enum Ret {
 #[derive(Clone, Debug, PartialEq, Serialize, Deserialize)]
 pub struct Model {
     pub scopes: Vec<BTreeMap<u8, u64>>,
+    /// (scope, type) pairs currently taken out by `holding`
+    #[serde(skip)]
+    pub holding_active: Vec<(usize, u8)>,
+    /// a `holding::<T>` was started for a `T` that the closure of an enclosing `holding::<T>`
+    /// re-created in the very scope the enclosing call took its `T` from (known finding, see
+    /// known_findings.json; generators stay clear of it, one directed scenario reports it)
+    #[serde(skip)]
+    pub reentrant_hit: bool,
 }
 
 impl Default for Model {
     fn default() -> Self {
-        Model {
-            scopes: vec![BTreeMap::new()],
-        }
+        Model::from_scopes(vec![BTreeMap::new()])
     }
 }
 
 impl Model {
+    pub fn from_scopes(scopes: Vec<BTreeMap<u8, u64>>) -> Self {
+        Model { scopes, holding_active: Vec::new(), reentrant_hit: false }
+    }
     pub fn find(&self, t: u8) -> Option<usize> {
         (0..self.scopes.len()).rev().find(|&i| self.scopes[i].contains_key(&t))
     }
@@ -244,11 +253,16 @@ impl Model {
             Op::Holding { t, write, ops, fail } => match self.find(*t) {
                 None => Ret::NotFound,
                 Some(i) => {
+                    if self.holding_active.contains(&(i, *t)) {
+                        self.reentrant_hit = true;
+                    }
                     let mut held = self.scopes[i].remove(t).unwrap();
                     if let Some(w) = write {
                         held = *w as u64;
                     }
+                    self.holding_active.push((i, *t));
                     let rets = ops.iter().map(|o| self.apply(o)).collect();
+                    self.holding_active.pop();
                     // put back into the scope it came from, displacing whatever the closure
                     // inserted there under the same type
                     self.scopes[i].insert(*t, held);
@@ -288,7 +302,7 @@ fn state_err(e: &StateError, expect_not_found: bool) -> Ret {
 /// Content of the top map of `reg` over the tracked types (probe types and `Iterations`).
 pub fn dump_top(reg: &StateRegistry<'static>) -> BTreeMap<u8, u64> {
     let mut m = BTreeMap::new();
-    for t in 0..NT {
+    for t in 0..NPROBE {
         with_ty!(t, T => {
             if reg.contains_at_top::<T>() {
                 // resolves at this level, because this level holds T
